@@ -337,8 +337,6 @@ def signature(case, verdict, failed):
         return generic
     if "crash:min-empty" in t:
         return "nonuniform:min-of-empty-inds" if "crash-op:nonuniform" in t else generic
-    if "drift" in t and case["k"] >= 1:
-        return "depth>0:updatePayloads-enumerates-nonempty-only"
     empty_sizes = (case["op"] == "unequal" and case.get("sizes") == []) or \
                   bool(case.get("re") and case["re"]["op"] == "unequal" and case["re"].get("sizes") == [])
     if empty_sizes:
